@@ -10,6 +10,17 @@ Tie       the same (config, fault plan, op list) is executed on the REAL QueuePo
           consumed at every DBAPI call / checkout event in call order; the per-op outcomes,
           idle records, open connections, overflow, checkedout(), pool invalidation time,
           clock and number of unconsumed faults must equal the Lean driver's.
+Concurrent lean/SaVerif/Model/RecProto.lean: checkout / checkin / _finalize_fairy as a protocol
+          over the shared cells (fairy_ref, queue), one atomic step per write, any number of
+          concurrent checkouts; Props/C26.lean proves for ALL interleavings that a holder is
+          always designated by its entry's fairy_ref (its release is never skipped), that an
+          entry has one responsible checkout, and that at quiescence every entry is idle or
+          closed -- and that with the two writes of checkin() in the other order an entry is
+          lost.  Tie: two real threads under the deterministic scheduler (harness/lib_sched.py),
+          thread B's operations inserted at the decision points of thread A's operation; the
+          writes of fairy_ref / queue in execution order must be a run of RecProto.step ending
+          in the same idle / owned / closed sets (trace inclusion), and the direct oracle
+          below is evaluated after both threads released everything.
 Oracle    the property itself, independent of the model: after every holder has been
           released checkedout() == 0 and every connection of the ledger is closed or is
           the connection of an idle record; every handed-out connection is open, was
@@ -25,8 +36,8 @@ PID = "C26"
 LEVEL = "proof"
 LEAN = ["SaVerif.Props.C26"]
 META = {
-    "text": "Lean theorems over ALL sequences of operations (checkout, close, invalidate, soft invalidate, pool invalidate, GC drop, time passing) and ALL fault plans (connect / close / reset / pre-ping / checkout-event faults at every call) of a sequential transcription of _ConnectionRecord / _ConnectionFairy._checkout / _finalize_fairy over QueuePool: when no record is in use checkedout() = 0 and every open connection belongs to an idle record (quiescent_no_leak); a handed-out connection is open, belongs to its record, and its record is neither older than the pool invalidation time nor soft-invalidated nor past recycle (no_stale_handout). Tied to the code by a differential run (same config, ops, fault plan) comparing outcomes, idle set, open set, counters, clock and fault consumption, and by an independent oracle on the ledger of a fake DBAPI.",
-    "note": "Modelled-not-verified: strictly increasing clock (one tick per time.time() call, as get_connection's comment assumes), single thread (concurrency is C25), pool timeout 0, Exception-class faults only (BaseException such as CancelledError is C29), detach()/dispose()/recreate() excluded, reset_on_return commit/rollback both one fault point, event listeners other than `checkout` absent. NullPool gets the direct oracle only.",
+    "text": "Lean theorems over ALL sequences of operations (checkout, close, invalidate, soft invalidate, pool invalidate, GC drop, time passing) and ALL fault plans (connect / close / reset / pre-ping / checkout-event faults at every call) of a sequential transcription of _ConnectionRecord / _ConnectionFairy._checkout / _finalize_fairy over QueuePool: when no record is in use checkedout() = 0 and every open connection belongs to an idle record (quiescent_no_leak); a handed-out connection is open, belongs to its record, and its record is neither older than the pool invalidation time nor soft-invalidated nor past recycle (no_stale_handout). Tied to the code by a differential run (same config, ops, fault plan) comparing outcomes, idle set, open set, counters, clock and fault consumption, and by an independent oracle on the ledger of a fake DBAPI. Concurrent part (Model/RecProto.lean): for ALL interleavings of any number of concurrent checkouts over the shared cells fairy_ref / queue, a holder's release is never skipped (release_never_skipped, skip_never_enabled), an entry has one responsible checkout (handover_exclusive) and at quiescence every entry is idle or closed (proto_quiescent_no_loss); late_clear_loses_entry shows the order of the two writes in checkin() is what this rests on. Tied by trace inclusion of the real writes under a deterministic two-thread scheduler that inserts one thread's operations at every state-changing point of the other's.",
+    "note": "Modelled-not-verified: strictly increasing clock (one tick per time.time() call, as get_connection's comment assumes), the fault machine is single-threaded with pool timeout 0 (two-thread interleavings of checkout/close/invalidate/drop are covered by the RecProto part without DBAPI faults other than a failing connect; queue/overflow-counter races are C25), Exception-class faults only (BaseException such as CancelledError is C29), detach()/dispose()/recreate() excluded, reset_on_return commit/rollback both one fault point, event listeners other than `checkout` absent. NullPool gets the direct oracle only.",
     "technique": "Lean 4 inductive invariant over a sequential state machine with fault plans + differential correspondence with a fake DBAPI",
     "design_ref": "DESIGN.md §3 C26",
 }
@@ -486,7 +497,11 @@ def run(ctx, deep=False):
         "cases = (pool_size 0..3, max_overflow -1..2, FIFO/LIFO, recycle off/0/3/10, pre_ping, reset rollback/commit/none, "
         "checkout listener) x 3..12 ops from {checkout, close, invalidate, soft, pool-invalidate, GC drop, wait} x random fault plan "
         "(density 0..50%); plus exhaustive op sequences (quick <= 3, thorough <= 5 ops) x every single-fault position on a "
-        "size-1/overflow-1 pool; non-trivial = >= 3 ops; distinct = distinct (config, plan, ops)"
+        "size-1/overflow-1 pool; two-thread schedules = (pool 1/0, 1/1, 2/0, 1/unbounded) x A's op {checkout, close, invalidate, soft, GC drop, "
+        "failing checkout} x B's ops {checkout, close, invalidate, drop and sequences of them}, B's ops run to completion (or until "
+        "blocked) at a decision point of A's op (every line of pool/base.py, pool/impl.py, util/queue.py and every lock operation): "
+        "quick = the points around every change of shared state, thorough = additionally every point of the hand-over scenarios and "
+        "B pre-started; non-trivial = >= 3 ops / any two-thread schedule; distinct = distinct (config, plan, ops) / (scenario, points)"
     )
     ctx.trusted.append("fake DBAPI / DefaultDialect subclass / logical clock of harness/props/c26.py")
     ctx.assumptions.append("time.time() strictly increases between calls (logical clock), as assumed by the comment in _ConnectionRecord.get_connection")
@@ -514,7 +529,218 @@ def run(ctx, deep=False):
         one(ctx, cfg, plan, ops, cases, impl_out, reqs, kind="NullPool")
     if ctx.driver_ok():
         ctx.correspond("corr/c26:QueuePool-fault-machine-vs-Model.PoolFault", cases, impl_out, ctx.driver(reqs))
+    # two threads: every operation inserted into every other one
+    conc_check(ctx, thorough)
     ctx.exhaustive = thorough
+
+
+# --------------------------------------------------------------------------- two actors: one operation inserted into another
+class InsertChooser:
+    """schedule for two threads A (t0) and B (t1): both run their set-up ops one after the other;
+    then A runs its main op and, at A's decision points number k1 and k2 (a decision point =
+    every line of pool/base.py, pool/impl.py, util/queue.py and every lock operation executed
+    by A in that op), B runs its main ops until they are finished or B blocks; A resumes when B
+    cannot run; afterwards B finishes, then both release what they hold (non-preemptive)."""
+
+    def __init__(self, run, mains, points):
+        self.run, self.mains = run, mains
+        self.pending = set(p for p in points if p is not None)
+        self.acount = 0
+        self.bturn = False
+        self.choices = []
+        self.fps = []  # shared-state fingerprint at each of A's decision points
+
+    def pick(self, options, current):
+        plain = [o for o in options if not o.startswith("to:")]
+        c = self._want(plain, current) if plain else options[0]
+        self.choices.append(c)
+        return c
+
+    def _want(self, plain, current):
+        r = self.run
+        a_main, b_main, b_n = self.mains
+        A, B = "t0", "t1"
+        if r.opidx[0] < a_main and A in plain:
+            return A
+        if r.opidx[1] < b_main and B in plain:
+            return B
+        b_done = r.opidx[1] >= b_main + b_n
+        if r.opidx[0] == a_main:
+            if self.bturn:
+                if B in plain and not b_done:
+                    return B
+                self.bturn = False
+            if A in plain:
+                if self.acount in self.pending and not b_done and B in plain:
+                    self.pending.discard(self.acount)
+                    self.bturn = True
+                    return B
+                self.pending.discard(self.acount)
+                self.acount += 1
+                self.fps.append(_fingerprint(r))
+                return A
+            return B if B in plain else plain[0]
+        if not b_done and B in plain:
+            return B
+        return current if current in plain else plain[0]
+
+
+def _fingerprint(r):
+    """what another thread can observe: queue, overflow counter, lock owners, every record's
+    fairy_ref / connection"""
+    pool = r.pool
+    q = pool._pool
+    own = lambda lk: getattr(getattr(lk, "owner", None), "idx", None)
+    return (
+        tuple(id(x) for x in r.queue_list()),
+        r.raw_overflow(),
+        own(getattr(q, "mutex", None)),
+        own(pool._overflow_lock),
+        tuple((rec.fairy_ref is None, id(rec.dbapi_connection), rec.fresh) for rec in r.recs),
+        tuple(c.closed for c in r.dbapi.conns),
+    )
+
+
+def _change_points(fps):
+    """A's decision points right after (and right before) a step that changed the shared state"""
+    pts = {0}
+    for k in range(1, len(fps)):
+        if fps[k] != fps[k - 1]:
+            pts.update((k - 1, k))
+    return sorted(pts)
+
+
+CONC_CFGS = ({"size": 1, "max_overflow": 0}, {"size": 1, "max_overflow": 1}, {"size": 2, "max_overflow": 0}, {"size": 1, "max_overflow": -1})
+# main op of A (with the number of connections A must hold before) / main ops of B
+CONC_X = (
+    (0, [("co",)]),
+    (1, [("ci", 0)]),
+    (1, [("inv", 0)]),
+    (1, [("soft", 0)]),
+    (1, [("drop", 0)]),
+    (0, [("failnext", 1), ("co",)]),
+    (1, [("co",)]),
+)
+CONC_Y = (
+    (0, [("co",)]),
+    (0, [("co",), ("ci", 0)]),
+    (1, [("ci", 0)]),
+    (1, [("ci", 0), ("co",)]),
+    (1, [("inv", 0)]),
+    (0, [("co",), ("inv", 0)]),
+    (1, [("drop", 0)]),
+    (0, [("co",), ("ci", 0), ("co",)]),
+)
+
+
+def conc_scenarios():
+    out = []
+    for cfg in CONC_CFGS:
+        for hx, xs in CONC_X:
+            for hy, ys in CONC_Y:
+                cap = cfg["size"] + (cfg["max_overflow"] if cfg["max_overflow"] >= 0 else 9)
+                if hx + hy > cap:
+                    continue
+                pa = [("co",)] * hx + xs[:-1]
+                pb = [("co",)] * hy
+                sc = {
+                    "cfg": dict(cfg, lifo=False, timeout=5.0),
+                    "programs": [pa + xs[-1:] + [("ci", 0)] * 3, pb + ys + [("ci", 0)] * 3],
+                    "mains": [len(pa), len(pb), len(ys)],
+                }
+                out.append(sc)
+    return out
+
+
+def run_conc(sc, points):
+    """returns (failures, number of decision points of A's main op, PoolRun)"""
+    from harness import lib_pool
+
+    run = lib_pool.PoolRun(sc["cfg"], [[tuple(o) for o in p] for p in sc["programs"]], None, max_steps=8000, early=False, trace_base=True, trace_records=True)
+    ch = run.chooser = InsertChooser(run, sc["mains"], points)
+    run.run()
+    failures = list(run.oracle_failures)
+    if run.status == "done":
+        # the property: every holder has released -> nothing counted as checked out, every
+        # connection the driver opened is closed or is the connection of an idle record
+        q = run.queue_list()
+        co = run.pool._pool.maxsize - len(q) + run.raw_overflow()
+        idle = {id(r.dbapi_connection) for r in q if r.dbapi_connection is not None}
+        lost = [c for c in run.dbapi.conns if not c.closed and id(c) not in idle]
+        if co != 0:
+            failures.append(("slot-lost", "every holder released its connection but checkedout()=%d (idle records %d, overflow %d)" % (co, len(q), run.raw_overflow())))
+        if lost:
+            failures.append(("connection-neither-idle-nor-closed", "%s open but not idle in the pool after every holder released" % lost))
+    run.fps = ch.fps
+    return failures, ch.acount, run
+
+
+PROTO_KINDS = ("cr", "pop", "fs", "fc", "cp", "put", "cl", "qset")
+
+
+def proto_line(run):
+    """the writes of shared cells (queue, fairy_ref) in the order the run performed them"""
+    toks = [l for l in run.labels if l.split(":")[1] in PROTO_KINDS]
+    return "poolfault proto " + (",".join(toks) or "-")
+
+
+def proto_impl(run):
+    fmt = lambda l: ",".join(map(str, sorted(l))) if l else "-"
+    idle, owned = set(run.final["queue"]), set(run.final["live"])
+    known = set(v for v in run.rec_ids.values())
+    return "ok idle=%s owned=%s dead=%s" % (fmt(idle), fmt(owned), fmt(known - idle - owned))
+
+
+def conc_check(ctx, thorough):
+    """quick: B inserted at every point of A's op around which the shared state changes (every
+    scenario of the hand-over core, the rest while the budget lasts, in seeded random order);
+    thorough: additionally every single decision point of the core scenarios and the
+    variants where B has already started (and is possibly blocked) before A's op begins"""
+    scs = conc_scenarios()
+    rng = random.Random("%s:conc:%d" % (PID, ctx.seed))
+    budget = 9000 if thorough else 650
+    order = list(range(len(scs)))
+    rng.shuffle(order)
+    core = [i for i in order if scs[i]["programs"][0][scs[i]["mains"][0]][0] in ("co", "ci") and scs[i]["cfg"]["size"] == 1 and scs[i]["cfg"]["max_overflow"] in (0, 1)]
+    order = core + [i for i in order if i not in core]
+    runs = 0
+    cases, impl_out, reqs = [], [], []
+
+    def tie(case, run):
+        if run.status == "done":
+            cases.append(case)
+            impl_out.append(proto_impl(run))
+            reqs.append(proto_line(run))
+
+    for i in order:
+        sc = scs[i]
+        if runs >= budget:
+            break
+        _, K, run = run_conc(sc, ())
+        tie({"conc": sc, "points": [None, None]}, run)
+        runs += 1
+        ctx.count("conc-scenarios")
+        cps = _change_points(run.fps)
+        plans = [(k, None) for k in cps]
+        if thorough:
+            plans += [(0, k) for k in cps if k]
+            if i in core:
+                plans += [(k, None) for k in range(K) if k not in cps]
+        else:
+            plans += [(0, k) for k in rng.sample(cps[1:], min(len(cps) - 1, 3 if i in core else 1))]
+        for k1, k2 in plans:
+            if runs >= budget:
+                break
+            failures, _, run = run_conc(sc, (k1, k2))
+            tie({"conc": sc, "points": [k1, k2]}, run)
+            runs += 1
+            ctx.case(("conc", i, k1, k2), nontrivial=True)
+            ctx.count("conc-runs")
+            for key, detail in failures[:2]:
+                ctx.violation("c26-conc-" + key, {"conc": sc, "points": [k1, k2]}, "%s; thread programs %s, B's main ops inserted at A's decision point(s) %s" % (detail, sc["programs"], [k1, k2]))
+    if ctx.driver_ok():
+        ctx.correspond("corr/c26:concurrent-checkin-checkout-vs-Model.RecProto", cases, impl_out, ctx.driver(reqs))
+    return runs
 
 
 def search(ctx, broken):
@@ -525,6 +751,12 @@ def search(ctx, broken):
 
 def replay(ctx, obj):
     c = obj["case"]
+    if "conc" in c:
+        failures, K, run = run_conc(c["conc"], tuple(c["points"]))
+        print("replay C26 two-thread schedule %s points=%s" % (c["conc"]["programs"], c["points"]))
+        print("  labels:", ",".join(run.labels))
+        print("  oracle:", failures or "no violation")
+        return bool(failures)
     canon, failures = run_real(c["cfg"], c["plan"], c["ops"], c.get("kind", "QueuePool"))
     print("replay C26 cfg=%s plan=%s ops=%s" % (c["cfg"], c["plan"], fmt_ops(c["ops"])))
     print("  real :", canon)
